@@ -300,6 +300,7 @@ def run_scripts(scripts, servertype, timeout, seed, full=False):
             lab.log = []
             sc.set_budget(6000)
             hang = False
+            broken = False
             witness_ok = fresh_ok = True
             # the application's disconnect hook fails in every third script (both servers log that and go on)
             nscript[0] += 1
@@ -473,6 +474,15 @@ def run_scripts(scripts, servertype, timeout, seed, full=False):
                                 "first": "ok", "reason": False, "mustreason": False, "checkfirst": False, "alive_sessions": 0})
             except S.Hang:
                 hang = True
+            except (S.SchedAbort, util.MachineryError):
+                raise
+            except Exception as x:
+                # a well-behaved client could not even connect, or one of its steps failed in a way the script does not expect
+                # (what an earlier script left behind in the daemon shows here): that client was disturbed
+                witness_ok = False
+                lab.log.append({"e": "Note", "what": "%s: %s" % (type(x).__name__, str(x)[:120])})
+                hang = hang or False
+                broken = True
             lab.log.append({"e": "End", "slots": lab.server_connections(), "open": 1, "loop_alive": lab.driver.crashed is None,
                             "witness_ok": bool(witness_ok), "fresh_ok": bool(fresh_ok), "hang": hang,
                             "crash": repr(lab.driver.crashed)[:100] if lab.driver.crashed is not None else ""})
@@ -487,7 +497,7 @@ def run_scripts(scripts, servertype, timeout, seed, full=False):
                 sc.quiesce()
             except S.Hang:
                 hang = True
-            if hang or lab.driver.crashed is not None or lab.server_connections() != 0:
+            if hang or broken or lab.driver.crashed is not None or lab.server_connections() != 0:
                 lab.close()
                 lab = fresh_lab()
         lab.close()
